@@ -13,6 +13,7 @@ pub mod clock {
         static NOW: Cell<u64> = const { Cell::new(0) };
         static INSTALLED: Cell<bool> = const { Cell::new(false) };
         static READS: Cell<u64> = const { Cell::new(0) };
+        static TIMEOUTS: Cell<u64> = const { Cell::new(0) };
         static WAKERS: RefCell<Vec<Box<dyn Fn()>>> = const { RefCell::new(Vec::new()) };
     }
     pub fn install(start_ns: u64) { NOW.with(|c| c.set(start_ns)); INSTALLED.with(|c| c.set(true)); READS.with(|c| c.set(0)); WAKERS.with(|w| w.borrow_mut().clear()); }
@@ -21,6 +22,9 @@ pub mod clock {
     pub fn now_ns() -> u64 { READS.with(|c| c.set(c.get() + 1)); NOW.with(|c| c.get()) }
     pub fn peek_ns() -> u64 { NOW.with(|c| c.get()) }
     pub fn reads() -> u64 { READS.with(|c| c.get()) }
+    /// probe: a simulated deadline (recv_timeout) actually expired
+    pub fn note_timeout() { TIMEOUTS.with(|c| c.set(c.get() + 1)); }
+    pub fn take_timeouts() -> u64 { TIMEOUTS.with(|c| { let v = c.get(); c.set(0); v }) }
     /// waiters on simulated deadlines register a notifier that is called on every advance
     pub fn on_advance(f: Box<dyn Fn()>) { WAKERS.with(|w| w.borrow_mut().push(f)); }
     pub fn advance(d_ns: u64) {
